@@ -3,6 +3,7 @@ import EpdVerif.Props.C11
 import EpdVerif.Oracle.All
 import EpdVerif.Table
 import EpdVerif.Lemmas.SsdMode
+import EpdVerif.Lemmas.UcPower
 /-!
 # Schedule-free / payload-free checks of a program, and the tactic that decides them per panel
 
@@ -63,6 +64,29 @@ def establishesModeP (p : Panel) (acts : List Act) : Bool :=
   match p.ctrl with
   | .ssd s => Ssd.establishesMode s.xPix s.stride s.rows (blocksOf acts)
   | .uc u => Uc.establishesFlags u.has14 (blocksOf acts)
+
+/-- C09 per operation (UC81xx / ACeP): run the power / sleep / initialisation fields through the
+    program from an awake, initialised controller that is powered (`startOn`) or not; `some b` = every
+    refresh trigger of the program is good and the controller is awake and initialised at the end of
+    the operation, powered iff `b`; `none` = some refresh would reach a sleeping, uninitialised or
+    unpowered controller (`Uc.powerRun_sound`: for EVERY controller state with those fields) -/
+def powerSafeP (p : Panel) (acts : List Act) (startOn : Bool) : Option Bool :=
+  match p.ctrl with
+  | .uc u =>
+    match Uc.powerRun ⟨false, startOn, true, false, u.has14⟩ (blocksOf acts) with
+    | some r => if !r.opEnd.asleep && r.opEnd.initialised && !r.opEnd.resetSeen then some r.opEnd.powered else none
+    | none => none
+  | .ssd _ => none
+
+/-- … construction / wake-up: the program starts with a hardware reset, so its effect on these
+    fields does not depend on the state before -/
+def powerEstablishP (p : Panel) (acts : List Act) : Option Bool :=
+  match p.ctrl, blocksOf acts with
+  | .uc u, .rst :: r =>
+    match Uc.powerRun ⟨false, false, false, true, u.has14⟩ r with
+    | some e => if !e.opEnd.asleep && e.opEnd.initialised && !e.opEnd.resetSeen then some e.opEnd.powered else none
+    | none => none
+  | _, _ => none
 
 /-- decide a closed-control-flow statement by kernel evaluation, after splitting the feature flags
     `f` and the control-relevant driver fields of `d` into cases -/
